@@ -161,9 +161,9 @@ type RoamCase struct {
 	Live    bool    `json:"live"`
 	// Pre: the first Pre steps run BEFORE the fence and its observers are
 	// created, so the fenced / roam collections already exist at creation time
-	Pre   int     `json:"pre,omitempty"`
+	Pre   int            `json:"pre,omitempty"`
 	excl  map[string]int // generator bookkeeping: shapes left out for known findings
-	Steps []RStep `json:"steps"`
+	Steps []RStep        `json:"steps"`
 }
 
 func (cs RoamCase) fenceTokens(fleet, other string) []string {
@@ -1510,19 +1510,41 @@ func runRoam(t failer, c *ev.Collector, cs RoamCase) (info roamInfo) {
 	if maxGapNs.Load() > startGap && maxGapNs.Load() > int64(2*time.Second) {
 		c.Inconclusive("process stalled %.1fs; webhook stream of %s not judged", float64(maxGapNs.Load())/1e9, prefix)
 	} else {
-		for i := 0; i < len(rawHook) || i < len(flatChan); i++ {
+		// A hook that was re-defined is a new object with a new sender goroutine,
+		// while the replaced one may still be inside its delivery routine: across
+		// a re-definition the server does not keep the delivery order (observed
+		// once in 192 000 cases; delivery order is C10's subject). With
+		// re-definitions the two streams are therefore compared as multisets.
+		hk := make([]rgot, len(rawHook))
+		for i := range rawHook {
+			hk[i] = parseRoam(rawHook[i])
+			if hk[i].Hook != hookName {
+				fail("roam:envelope", "webhook message with hook "+hk[i].Hook)
+			}
+		}
+		ch := append([]rgot(nil), flatChan...)
+		if redefined {
+			less := func(a []rgot) func(i, j int) bool {
+				return func(i, j int) bool {
+					if a[i].key() != a[j].key() {
+						return a[i].key() < a[j].key()
+					}
+					return a[i].Meters < a[j].Meters
+				}
+			}
+			sort.SliceStable(hk, less(hk))
+			sort.SliceStable(ch, less(ch))
+			info.labels["webhook-compared-as-multiset(re-defined)"]++
+		}
+		for i := 0; i < len(hk) || i < len(ch); i++ {
 			switch {
-			case i >= len(rawHook):
-				fail("roam:webhook-missing", fmt.Sprintf("webhook received %d messages, channel %d; first missing: %s", len(rawHook), len(flatChan), flatChan[i].Raw))
-			case i >= len(flatChan):
-				fail("roam:webhook-extra", fmt.Sprintf("webhook received %d messages, channel %d; first extra: %s", len(rawHook), len(flatChan), rawHook[i]))
+			case i >= len(hk):
+				fail("roam:webhook-missing", fmt.Sprintf("webhook received %d messages, channel %d; first missing: %s", len(hk), len(ch), ch[i].Raw))
+			case i >= len(ch):
+				fail("roam:webhook-extra", fmt.Sprintf("webhook received %d messages, channel %d; first extra: %s", len(hk), len(ch), hk[i].Raw))
 			}
-			h := parseRoam(rawHook[i])
-			if h.Hook != hookName {
-				fail("roam:envelope", "webhook message with hook "+h.Hook)
-			}
-			if h.key() != flatChan[i].key() || h.Meters != flatChan[i].Meters || h.Cmd != flatChan[i].Cmd {
-				fail("roam:webhook-differs", fmt.Sprintf("message #%d differs: webhook %s / channel %s", i, rawHook[i], flatChan[i].Raw))
+			if hk[i].key() != ch[i].key() || hk[i].Meters != ch[i].Meters || hk[i].Cmd != ch[i].Cmd {
+				fail("roam:webhook-differs", fmt.Sprintf("message #%d differs: webhook %s / channel %s", i, hk[i].Raw, ch[i].Raw))
 			}
 		}
 	}
